@@ -11,6 +11,8 @@ import GocoinV.Proofs.C19Crash
 import GocoinV.Proofs.C19Run2
 import GocoinV.Proofs.C19Run3
 import GocoinV.Proofs.C19Hist
+import GocoinV.Proofs.C19Vol
+import GocoinV.Proofs.C19Lazy
 import GocoinV.Gen.QdbFacts
 namespace GocoinV.Props.C19
 open GocoinV GocoinV.Qdb GocoinV.QdbSpec GocoinV.Proofs.C19
@@ -46,11 +48,15 @@ theorem qdb_refines_map_partial (db : DB) (ops : List Op) (h : Cached db) (ok : 
   · intro w hw; rw [← ha]; exact (browse_cached _ w hc hw).2.2
   · rw [← ha]; simp [count, mcount, absv]
 
--- OPEN: qdb_refines_map — the same statement for ALL operation sequences, i.e. including NO_CACHE records
---   (whose values are read back from the data files: needs the invariant "every record without data in
---   memory points into an existing <seq>.dat whose bytes [pos,pos+len) are the value, and later writes only
---   append") and including `Op.reopen` (needs the parse∘serialise round trip of index snapshot + log).
---   These parts are covered by the correspondence run only.
+-- OPEN: qdb_refines_map — the same statement for ALL operation sequences, i.e. including records that are not in
+--   memory: NO_CACHE records (PutExt / ApplyFlags / walk results with NO_CACHE; `freerec` and sync() drop their data,
+--   `loadrec` reads it back) and LoadData = false (every record is read back on first use). Needs the invariant
+--   "every record without data in memory points into an existing <seq>.dat whose bytes [pos,pos+len) are the value,
+--   and later writes only append" threaded through the fold lemmas of sync / defrag / Browse (all of which are
+--   stated for in-memory records here). `Op.reopen` (both modes, LoadData) and crashes are covered by
+--   qdb_refines_map_values_partial / qdb_durable_partial below at the level of values; the flag part of the
+--   abstract state across a reopen is "whatever was persisted" (browse_after_history_partial).
+--   NO_CACHE / LoadData=false are covered by the correspondence run only.
 
 /-- non-vacuity: a fresh store on an empty directory is cached, and a sequence with forced sync (MaxPending 0),
     overwrite, delete, NO_BROWSE flag, forced defrag is in the sub-language -/
@@ -223,11 +229,11 @@ example :
   · simp only [RunFits2, OpFits2, OpFits, SizeOK]
     decide
 
--- OPEN: qdb_refines_map / reopen_after_close_identity in full: (i) Browse-as-a-set after a reopen (which flags
---   survive a reopen is decided by what was persisted; before the first reopen Browse is covered by
---   qdb_refines_map_partial); (ii) volatile stores across a reopen when nothing was changed;
---   (iii) NO_CACHE records and LoadData = false (values are read back lazily from the data files). These are
---   covered by the correspondence run only.
+-- OPEN: qdb_refines_map / reopen_after_close_identity in full: NO_CACHE records and LoadData = false (values are
+--   read back lazily from the data files) — correspondence run only. Proved since the first pass: Browse after a
+--   reopen (browse_after_history_partial), volatile stores across any number of reopens and mixed-mode histories
+--   (qdb_durable_partial: its items (1)-(2) are the refinement statement for Get / Count, for histories that may
+--   also contain crashes).
 
 /-- Durability across a crash anywhere inside sync() / Close. Take any reachable state of a non-volatile store
     (empty directory, any cached-sub-language history, side conditions as above) with pending changes. sync()
@@ -335,79 +341,85 @@ theorem qdb_durable_defrag_partial (load : Bool) (opts : Opts) (ops : List Op)
   · exact Or.inl (fun k => by rw [o2 k, hV k, ← hold k])
   · exact Or.inr (fun k => by rw [o2 k, hV k, ← vals_eq, hv k])
 
-/-- Durability for EVERY history that CONTINUES after crashes (central theorem, stated bounds below). A history is a
-    list of items: an operation of the sub-language (Put / PutExt / Del / Get / Browse / ApplyFlags / Defrag / Sync /
-    NoSync without NO_CACHE, Close + NewDBExt(non-volatile, LoadData, any options)), or a CRASH: the process dies
-    inside an operation `o` after ANY number `n` of its file operations (`Model.Qdb.crashDir`: inside sync(), inside a
-    forced or automatic defrag() incl. writedatfile() and cleanupold(), inside Close, inside the clean-up NewDBExt
-    itself performs — removal of the older index file, of a discarded log, of unused data files), followed by ANY
-    number of recovery attempts that die inside NewDBExt after `ms` of its file operations (`recrash`), followed by a
-    NewDBExt(non-volatile, LoadData, any options) that completes; then the history goes on, with further crashes.
-    Start: NewDBExt on an empty directory. Bounds (`HFits`): keys 64-bit, flags 32-bit, data file < 4 GiB, sequence
-    numbers do not wrap (`OpFits2`, `maxSeq`), and at every item the index snapshot (16 + 24 bytes per record) is
-    at most the 1 MiB bufio buffer, i.e. at most 43 689 records (`DFits`). Then:
+/-- Durability for EVERY history that CONTINUES after crashes, volatile and non-volatile mode (central theorem,
+    stated bounds below). A history is a list of items: an operation of the sub-language — Put / PutExt / Del / Get /
+    Browse / ApplyFlags / Defrag / Sync / NoSync without NO_CACHE, and Close + NewDBExt(volatile or non-volatile,
+    LoadData, any options) — or a CRASH: the process dies inside an operation `o` after ANY number `n` of its file
+    operations (`Model.Qdb.crashDir`: inside sync(), inside a forced or automatic defrag() incl. writedatfile() and
+    cleanupold(), inside Close of either mode, inside the clean-up NewDBExt itself performs — removal of the older
+    index file, of a discarded log, of unused data files), followed by ANY number of recovery attempts that die
+    inside NewDBExt after `ms` of its file operations (`recrash`), followed by a NewDBExt(non-volatile, LoadData, any
+    options) that completes; then the history goes on, with further crashes.
+    Start: NewDBExt(non-volatile) on an empty directory. Bounds (`HFits`): keys 64-bit, flags 32-bit, data file
+    < 4 GiB, sequence numbers do not wrap (`OpFits3`, `maxSeq`), and at every item the index snapshot (16 + 24 bytes
+    per record) is at most the 1 MiB bufio buffer, i.e. at most 43 689 records (`DFits`). Then:
     (1) the store never fails — every NewDBExt on every crash directory succeeds (no os.Exit, no panic);
     (2) Get returns, for every key, the in-memory map `vals db`; Count is the number of keys of that map;
     (3) the pair (in-memory map, durable map = what a reopen of the current directory finds) follows the
         durable-map specification `DurOK`: operations act on the in-memory map as on a plain map; the durable map
-        stays or becomes the complete in-memory map, and it MUST become it at Sync, Defrag(true) and Close+reopen;
-        after a crash the store continues with — for ALL keys at once — the durable map from before the interrupted
-        operation or the complete map after it, and that is durable;
+        stays or becomes the complete in-memory map, and it MUST become it at Close+reopen and, for a non-volatile
+        store, at Sync and Defrag(true); after a crash the store continues with — for ALL keys at once — the durable
+        map from before the interrupted operation or the complete map after it, and that is durable;
     (4) hence no value is ever invented: whatever a key holds at the end, in memory or durably, was written by a
         Put / PutExt of the history (`durOK_origin`).
-    NewDBExt re-establishes the invariants (`Inv3`) on every crash directory, also when `loadlog` discards the log
-    (empty log left between os.Create and the header write; previous version's log left by a crash in defrag). -/
+    NewDBExt re-establishes the invariants (`Inv3`, for a volatile store `VInv`) on every crash directory, also when
+    `loadlog` discards the log (empty log left between os.Create and the header write; previous version's log left
+    by a crash in defrag). -/
 theorem qdb_durable_partial (load : Bool) (opts : Opts) (H : List HItem)
     (ok : ∀ i ∈ H, HOK i) (fits : HFits (openDB {} false load opts) H) :
     let db := hrun (openDB {} false load opts) H
     db.failed = none ∧
     (∀ k, (Qdb.get db k).2 = vals db k) ∧
     (∃ ks : List Key, ks.Nodup ∧ (∀ k, k ∈ ks ↔ (vals db k).isSome = true) ∧ count db = ks.length) ∧
-    DurOK (fun _ => none) (fun _ => none) H (vals db) (diskValue db.fs) ∧
+    DurOK false (fun _ => none) (fun _ => none) H (vals db) (diskValue db.fs) ∧
     (∀ k v, (vals db k = some v ∨ diskValue db.fs k = some v) → ∃ i ∈ H, writes (itemOp i) k v) := by
   intro db
-  obtain ⟨h3, hd⟩ := hrun_dur H _ (fresh_inv3 load opts) ok fits
+  obtain ⟨h3, hd⟩ := hrun_dur H _ (Or.inl (fresh_inv3 load opts)) ok fits
   have hv0 : vals (openDB {} false load opts) = fun _ => none := by
     funext k; cases load <;> rfl
   have hd0 : diskValue (openDB {} false load opts).fs = fun _ => none := by
     funext k; cases load <;> rfl
-  rw [hv0, hd0] at hd
-  refine ⟨h3.inv.cached.1, fun k => (get_cached _ k h3.inv.cached).2.2, ?_, hd, fun k v hv => ?_⟩
-  · refine ⟨Keys db.index, h3.inv.nodup, fun k => ?_, by simp [count, Keys]⟩
+  have hm0 : (openDB {} false load opts).volatile = false := by cases load <;> rfl
+  rw [hv0, hd0, hm0] at hd
+  refine ⟨h3.cached.1, fun k => (get_cached _ k h3.cached).2.2, ?_, hd, fun k v hv => ?_⟩
+  · refine ⟨Keys db.index, h3.nodup, fun k => ?_, by simp [count, Keys]⟩
     rw [vals_eq, Option.isSome_map]
     exact (ilookup_isSome_iff k db.index).symm
-  · rcases durOK_origin H _ _ _ _ hd k v hv with r | r | r
+  · rcases durOK_origin H _ _ _ _ _ hd k v hv with r | r | r
     · cases r
     · cases r
     · exact r
 
 /-- non-vacuity of qdb_durable_partial: a synced put, an overwrite, a crash inside Sync after 2 of its file
     operations with one failed recovery attempt, more changes, a crash inside a forced defrag after 4 file operations,
-    a crash inside the NewDBExt of a Close+reopen (after all of Close's and one of NewDBExt's file operations) -/
+    a volatile session (reopen volatile, a change, Close = defrag, reopen non-volatile), a crash inside the NewDBExt
+    of a Close+reopen (after all of Close's and one of NewDBExt's file operations) -/
 example :
     let H := [HItem.op (.put 1 [1, 2]), .op .sync, .op (.put 1 [9]), .crash .sync 2 [1] {}, .op (.put 2 [4]),
-              .crash (.defrag true) 4 [] { maxPending := 0 }, .op (.del 1), .crash (.reopen false true {}) 4 [0, 1] {}]
+              .crash (.defrag true) 4 [] { maxPending := 0 }, .op (.reopen true true {}), .op (.put 3 [7]),
+              .op (.reopen false true {}), .op (.del 1), .crash (.reopen false true {}) 4 [0, 1] {}]
     (∀ i ∈ H, HOK i) ∧ HFits (openDB {} false true {}) H := by
   refine ⟨?_, ?_⟩
   · intro i hi
     simp only [List.mem_cons, List.not_mem_nil, or_false] at hi
-    rcases hi with rfl | rfl | rfl | rfl | rfl | rfl | rfl | rfl <;> simp [HOK, OpOK2, OpOK]
-  · simp only [HFits, OpFits2, OpFits, SizeOK, dFits_iff]
+    rcases hi with rfl | rfl | rfl | rfl | rfl | rfl | rfl | rfl | rfl | rfl | rfl <;>
+      simp [HOK, itemOp, OpOK3, OpOK]
+  · simp only [HFits, OpFits3, OpFits, SizeOK, dFits_iff]
     decide
 
-/-- Browse after ANY history of the sub-language, reopens and crashes included: Browse (with a walk function that
-    never asks for NO_CACHE) shows only true entries — every (key, value) it visits is the in-memory map's — and it
-    shows every entry whose browsing flag in memory does not say NO_BROWSE. (Which flags a record carries after a
-    reopen is decided by what was persisted with it: the flags at its last sync or defrag.) -/
+/-- Browse after ANY history of the sub-language, reopens (both modes) and crashes included: Browse (with a walk
+    function that never asks for NO_CACHE) shows only true entries — every (key, value) it visits is the in-memory
+    map's — and it shows every entry whose browsing flag in memory does not say NO_BROWSE. (Which flags a record
+    carries after a reopen is decided by what was persisted with it: the flags at its last sync or defrag.) -/
 theorem browse_after_history_partial (load : Bool) (opts : Opts) (H : List HItem)
     (ok : ∀ i ∈ H, HOK i) (fits : HFits (openDB {} false load opts) H) (w : List (Key × Nat)) (hw : WalkOK w) :
     let db := hrun (openDB {} false load opts) H
     (∀ kv ∈ (browse db w).2, vals db kv.1 = some kv.2) ∧
     (∀ k v f, ilookup k (absv db) = some (v, f) → hasFlag f NO_BROWSE = false → (k, v) ∈ (browse db w).2) := by
   intro db
-  obtain ⟨h3, _⟩ := hrun_dur H _ (fresh_inv3 load opts) ok fits
-  have hb : (browse db w).2 = mbrowseOut (absv db) := (browse_cached db w h3.inv.cached hw).2.2
-  have hnd : (Keys (absv db)).Nodup := by rw [keys_absv]; exact h3.inv.nodup
+  obtain ⟨h3, _⟩ := hrun_dur H _ (Or.inl (fresh_inv3 load opts)) ok fits
+  have hb : (browse db w).2 = mbrowseOut (absv db) := (browse_cached db w h3.cached hw).2.2
+  have hnd : (Keys (absv db)).Nodup := by rw [keys_absv]; exact h3.nodup
   rw [hb]
   constructor
   · intro kv hkv
@@ -425,12 +437,40 @@ theorem browse_after_history_partial (load : Bool) (opts : Opts) (H : List HItem
     unfold mbrowseOut
     exact List.mem_filterMap.mpr ⟨(k, v, f), ilookup_key_pair k (v, f) _ hl, by simp [hf]⟩
 
--- OPEN: qdb_durable in full — what is still missing for the statement of DESIGN §6: (i) index snapshots larger
---   than the bufio buffer (a chunk boundary could in principle fall so that a prefix of the snapshot ends in bytes
---   that look like the FFFFFFFF-seq-FINI trailer — see the report); (ii) volatile stores, NO_CACHE / not-loaded
---   records; (iii) histories that already contain a CRASH (the invariants are re-established after a regular reopen,
---   not yet after the reopen of a crash directory); (iv) crashes inside NewDBExt's own clean-up. These are covered
---   by the harness only.
+/-- Lazily loaded records, first access. After ANY history of the sub-language (both modes, crashes included; bounds
+    as in qdb_durable_partial, plus the size bounds of a Close now), Close and then NewDBExt in ANY mode with
+    LoadData = FALSE: Close does not fail, the open does not fail and holds no record data in memory, and for EVERY
+    key the first Get does not fail and returns exactly the in-memory map's value from before the Close — `loadrec`
+    finds the data file and reads the record's bytes. (`lazy_open_get` states the same for every openable directory,
+    in particular for every crash directory. What is NOT proved is the continuation of a history on a store that
+    holds not-loaded records — see the OPEN notes.) -/
+theorem lazy_reopen_first_get_partial (load : Bool) (opts : Opts) (H : List HItem)
+    (ok : ∀ i ∈ H, HOK i) (fits : HFits (openDB {} false load opts) H)
+    (hs : SizeOK (hrun (openDB {} false load opts) H)) (hd : DFits (hrun (openDB {} false load opts) H))
+    (vol' : Bool) (opts' : Opts) (k : Key) :
+    let db := hrun (openDB {} false load opts) H
+    (close db).failed = none ∧
+    (openDB (close db).fs vol' false opts').failed = none ∧
+    (Qdb.get (openDB (close db).fs vol' false opts') k).1.failed = none ∧
+    (Qdb.get (openDB (close db).fs vol' false opts') k).2 = vals db k := by
+  intro db
+  obtain ⟨h3, _⟩ := hrun_dur H _ (Or.inl (fresh_inv3 load opts)) ok fits
+  have c : Closed db := by
+    rcases h3 with h | h
+    · exact nclose db h hs hd
+    · exact vclose db h hs.2 hd
+  obtain ⟨a, b, d⟩ := lazy_open_get (close db).fs vol' opts' c.ok k
+  exact ⟨c.failed, a, b, d.trans (c.vals k)⟩
+
+-- OPEN: qdb_durable in full — what is still missing for the statement of DESIGN §6: (i) index snapshots larger than
+--   the 1 MiB bufio buffer, i.e. more than 43 689 records (`DFits.small`; a chunk boundary could in principle fall so
+--   that a prefix of the snapshot ends in bytes that look like the FFFFFFFF-seq-FINI trailer — the data file has no
+--   such bound: defrag's data writer is analysed for any number of chunks); (ii) NO_CACHE / not-loaded records
+--   (LoadData = false); (iii) a recovery NewDBExt in VOLATILE mode directly after a crash (`HItem.crash` recovers
+--   non-volatile; a volatile session may follow as `.op (.reopen true …)`); (iv) torn / reordered writes and power
+--   loss (the crash model is process kill, see the manifest). Proved since the first pass: histories that continue
+--   after a crash, crashes inside NewDBExt, volatile mode (qdb_durable_partial). (i)-(iii) are covered by the
+--   harness only.
 
 /-- non-vacuity of reopen_after_close_identity_partial: a two-record store -/
 example : IndexWF [(1, (newRec [1, 2, 3] 0)), (2 ^ 64 - 1, (newRec [] NO_BROWSE))] := by
